@@ -46,7 +46,7 @@ PROPS = {
         lean_modules=["Liftbridge.Props.C10"],
         gen_sources=LOG_SOURCES + ["server/partition.go:partition.getStopOffset", "server/partition.go:partition.Subscribe",
                                    "server/partition.go:partition.newSubscribeLoop", "server/commitlog/commitlog.go:commitLog.EarliestOffsetAfterTimestamp"],
-        runs=[dict(go_pkg="./server/commitlog", test="TestVerifC10Log")],
+        runs=[dict(go_pkg="./server/commitlog", test="TestVerifC10Log"), dict(go_pkg="./server", test="TestVerifC10")],
         level="proof",
         assumptions=LOG_ASSUME,
         trusted=[],
